@@ -21,7 +21,7 @@ def main(tier: str) -> int:
     chk.lean()
     from joblib import cpu_count
     from thefittest.base._ea import EvolutionaryAlgorithm
-    from thefittest.optimizers import GeneticAlgorithm, DifferentialEvolution, SHAGA
+    from thefittest.optimizers import GeneticAlgorithm, DifferentialEvolution, SHAGA, SHADE
 
     cpu = cpu_count()
     pmax = 48 if tier == "quick" else 200
@@ -70,13 +70,19 @@ def main(tier: str) -> int:
         st = o.get_stats()
         return {"fit": [list(map(float, f)) for f in st["fitness"]], "calls": int(o._calls),
                 "best": float(o.get_fittest()["fitness"]),
-                "pop": [np.asarray(p, dtype=np.float64).tolist() for p in st["population_g"]]}
+                "pop": [np.asarray(p, dtype=np.float64).tolist() for p in st["population_g"]],
+                "pop_ph": [np.asarray(p, dtype=np.float64).tolist() for p in st["population_ph"]],
+                "max_ph": [np.asarray(p, dtype=np.float64).tolist() for p in st["max_ph"]],
+                "live_ph": np.asarray(o._population_ph_i, dtype=np.float64).tolist()}
 
     fams = [
         ("GeneticAlgorithm", GeneticAlgorithm, dict(fitness_function=W.onemax_delayed, iters=4, pop_size=9, str_len=12)),
         ("GeneticAlgorithm+g2p", GeneticAlgorithm, dict(fitness_function=W.sphere_delayed, genotype_to_phenotype=W.g2p_scale, iters=3, pop_size=8, str_len=10)),
         ("DifferentialEvolution", DifferentialEvolution, dict(fitness_function=W.sphere_delayed, iters=4, pop_size=8, left_border=-2.0, right_border=2.0, num_variables=3, minimization=True)),
         ("SHAGA", SHAGA, dict(fitness_function=W.onemax_delayed, iters=3, pop_size=7, str_len=10)),
+        ("DifferentialEvolution+g2p", DifferentialEvolution, dict(fitness_function=W.sphere_delayed, genotype_to_phenotype=W.g2p_scale, iters=4, pop_size=8, left_border=-2.0, right_border=2.0, num_variables=3, minimization=True)),
+        ("SHADE+g2p", SHADE, dict(fitness_function=W.sphere_delayed, genotype_to_phenotype=W.g2p_scale, iters=4, pop_size=7, left_border=-2.0, right_border=2.0, num_variables=2, minimization=True)),
+        ("SHAGA+g2p", SHAGA, dict(fitness_function=W.sphere_delayed, genotype_to_phenotype=W.g2p_scale, iters=3, pop_size=7, str_len=10)),
     ]
     if tier == "quick":
         njs = [2, 3, 13, -1]
